@@ -13,9 +13,9 @@ from vlib.core import *
 from vlib.framework import Engine, RunResult
 from vlib import progs, images, decoders
 
-FORMATS = ["hex", "srec", "elf", "wdc", "uf2", "bin"]
+FORMATS = ["hex", "srec", "elf", "wdc", "uf2", "bin", "macho"]
 SPARSE = ("hex", "srec", "wdc")          # skip unwritten bytes
-CONTIG = ("elf", "uf2", "bin", "amiga")           # serialise the whole span low..high
+CONTIG = ("elf", "uf2", "bin", "amiga", "macho")           # serialise the whole span low..high
 
 
 class C03(Engine):
@@ -124,6 +124,8 @@ class C03(Engine):
                     res.viol("decode:bin:length", got=len(data), want=hi - lo + 1)
             elif fmt == "amiga":
                 mem, meta, problems = decoders.decode_amiga(data, lo)
+            elif fmt == "macho":
+                mem, meta, problems = decoders.decode_macho(data, lo)
             else:
                 mem, meta, problems = decoders.DECODERS[fmt](data)
             for pr in problems[:1]:
@@ -150,17 +152,17 @@ class C03(Engine):
                         res.viol("decode:%s:extra-address-outside-span" % fmt, addr="0x%x" % min(out_of_span), n=len(out_of_span))
                     elif nonzero:
                         res.viol("decode:%s:nonzero-gap-byte" % fmt, addr="0x%x" % min(nonzero), val=mem[min(nonzero)])
-            if fmt == "elf":
+            if fmt in ("elf", "macho"):
                 for name, addr in img["exports"]:
                     sym = meta["symbols"].get(name)
                     if sym is None:
-                        res.viol("decode:elf:exported-symbol-missing", name=name, have=sorted(meta["symbols"])[:6])
+                        res.viol("decode:%s:exported-symbol-missing" % fmt, name=name, have=sorted(meta["symbols"])[:6])
                     elif sym[0] != addr // bpa and sym[0] != addr:
                         kind = "exported-symbol-value"
                         if bpa > 1 and addr >= 0x80000000 and sym[0] == ((addr - (1 << 32)) // bpa) & 0xffffffff:
                             kind = "exported-symbol-value-sign-extended-above-2^31-bpa>1"
-                        res.viol("decode:elf:" + kind, name=name, got="0x%x" % sym[0], want="0x%x" % (addr // bpa))
-                if img["entry"] is not None and meta["entry"] not in (img["entry"], img["entry"] // bpa):
+                        res.viol("decode:%s:" % fmt + kind, name=name, got="0x%x" % sym[0], want="0x%x" % (addr // bpa))
+                if fmt == "elf" and img["entry"] is not None and meta["entry"] not in (img["entry"], img["entry"] // bpa):
                     res.viol("decode:elf:entry", got="0x%x" % (meta["entry"] or 0), want="0x%x" % (img["entry"] // bpa))
             if fmt == "srec" and img["entry"] is not None and meta.get("entry") not in (img["entry"], img["entry"] // bpa):
                 res.viol("decode:srec:entry", got=meta.get("entry"), want="0x%x" % (img["entry"] // bpa))
@@ -181,8 +183,8 @@ class C03(Engine):
                 console.append("symbols")
             console.append("quit")
             argv = ["naken_util", "-" + cpu]
-            if fmt == "amiga" and lo != 0:
-                res.probe("amiga_loadback_skipped_image_not_at_0")     # a hunk has no address: naken_util loads it at 0
+            if fmt in ("amiga", "macho") and lo != 0:
+                res.probe("%s_loadback_skipped_image_not_at_0" % fmt)     # a hunk / a relocatable object has no address: loaded at 0
                 continue
             if fmt == "bin":
                 if bpa != 1:
